@@ -177,7 +177,7 @@ CHECKS = {
               "(list and ndarray), SET (two widths) and CSUPER. Mode `ints`: the cell of every integer of a wrapped list (wtnasints, start field "
               "2..9 x 0..27 integers; IntLaws: no cell skipped or used twice, fields 2..9, line count) - the card's fields must be the given "
               "integers in order (layout itself is reported as a spec deviation). Mode `layouts` (spec deviations only): field layouts of "
-              "RBE2 / MPC / TABDMP1 / CONM2 / TLOAD1 / TLOAD2 written by their writers and read by the generic card reader. USET tables of 2-6 grids whose input / output systems are drawn from basic "
+              "RBE2 / MPC / TABDMP1 / CONM2 / TLOAD1 / TLOAD2 / RBE3 (UM, ALPHA) written by their writers and read by the generic card reader. USET tables of 2-6 grids whose input / output systems are drawn from basic "
               "and a CORD2R <- CORD2C <- CORD2S chain in any arrangement go through uset2bulk / bulk2uset (same grids, locations, transforms) "
               "and mkcordcardinfo / wtcoordcards / rdcord2cards (every system read back = the one in the table). The written text is also parsed by a neutral fixed-column cell splitter so that a compensating "
               "writer+reader pair of bugs is still seen."),
@@ -199,7 +199,8 @@ CHECKS = {
               "cycle pair x 15 bin specifications x right/left (TLC invariant Conservation) replayed exactly, plus auto-bin "
               "conservation sweeps. fdepsd: option lattice; integer facts of every count row trace-validated by TLC "
               "(CycleCountTrace.tla), real-valued clauses (Amax <= SRS, G2 >= G1, damage sums, variance relation, amplitude^2 "
-              "scaling) as comparisons on the run's own outputs."),
+              "scaling) as comparisons on the run's own outputs. Growth (spec deviations only): the bins binify reports for automatically generated bins cover the data, are strictly "
+              "increasing and give the same table when used explicitly."),
         ref="4/C10",
         note=("Trusted: TLC. numba absent: the accelerated findap is its undecorated definition. Known findings (known_findings.json): with "
               "tolerances coarse enough to merge unequal neighbours both findap variants violate Req on drift families and disagree; "
@@ -290,7 +291,8 @@ CHECKS = {
               "CallsConsistent on every history of 3 (thorough 4) calls, and each history is replayed on real SSModel objects (row- and "
               "column-major inputs): every object is re-read after every call and compared with a fresh replay of its derivation. The expmint "
               "lattice carries the structure `diagonal` (exactly uncoupled A, singular class) and splits the scale of A h between A and h "
-              "(A x 2^-10, 2^10, 2^-30 with h compensating): classification by absolute size of A's entries is then observable."),
+              "(A x 2^-10, 2^10, 2^-30 with h compensating): classification by absolute size of A's entries is then observable. Growth (spec "
+              "deviations only): the Query action of SSObjects - getlti() interleaved with the conversions of every history."),
         ref="4/C07",
         note=("Trusted: TLC, mpmath, the generic term evaluator. Tolerance = 10 x (measured change of the exact result under a 64-ulp "
               "dense relative perturbation of A + 40 ulp): loss of 1-2 digits beyond that is not detected; comparisons whose sensitivity "
